@@ -137,10 +137,11 @@ func (mw *Middleware) Wrap(next dnsserver.Handler) (wrapped dnsserver.Handler) {
 		}
 
 		remoteIP := raddr.Addr()
-		loc, ecs, err := mw.location(ctx, req, remoteIP)
-		if err != nil {
-			return mw.processLocationErr(ctx, rw, req, err)
-		}
+
+		// NOTE:  Do not answer a malformed ECS option here:  the access check
+		// below must come first, since blocked clients and names must not
+		// receive any response at all.  loc is valid even if locErr is not nil.
+		loc, ecs, locErr := mw.location(ctx, req, remoteIP)
 
 		ri := mw.newRequestInfo(ctx, req, rw.LocalAddr(), raddr)
 		defer mw.pool.Put(ri)
@@ -156,6 +157,10 @@ func (mw *Middleware) Wrap(next dnsserver.Handler) (wrapped dnsserver.Handler) {
 
 		if mw.isBlockedByAccess(ctx, ri, req, raddr) {
 			return nil
+		}
+
+		if locErr != nil {
+			return mw.processLocationErr(ctx, rw, req, locErr)
 		}
 
 		ctx = agd.ContextWithRequestInfo(ctx, ri)
